@@ -69,6 +69,10 @@ type Chan struct {
 	buf    []Value
 	cap    int
 	closed bool
+	// ticker: a time.Ticker channel - whether a tick is pending when a select looks at it is a symbolic choice
+	// (at most `ticks` times per path)
+	ticker bool
+	ticks  int
 }
 
 type mapEntry struct {
